@@ -263,6 +263,7 @@ func runRate(rec *Rec, sc *OverloadScenario, n int) {
 	ov := overloader.New(overloader.LimitConfig{MaxTotalQPS: int32(r.Cap), QPSInterval: interval})
 	srv := erpc.NewPeer(erpc.PeerConfig{}, ov)
 	srv.RouteCall(new(T))
+	srv.RoutePush(new(U))
 	cli := erpc.NewPeer(erpc.PeerConfig{})
 	defer func() {
 		done := make(chan struct{})
@@ -285,10 +286,23 @@ func runRate(rec *Rec, sc *OverloadScenario, n int) {
 			time.Sleep(time.Duration(r.Waits[i-1]) * time.Millisecond)
 		}
 		before := atomic.LoadInt64(&app.Enters)
+		beforePush := atomic.LoadInt64(&app.EntersPush)
 		admitted, rejected, rejectedErr := 0, 0, 0
 		var wg sync.WaitGroup
 		var mu sync.Mutex
-		for j := 0; j < burst; j++ {
+		// every second burst mixes pushes in (they take tokens like calls, but are not answered)
+		pushes := 0
+		if i%2 == 1 {
+			pushes = burst / 2
+		}
+		for j := 0; j < pushes; j++ {
+			wg.Add(1)
+			go func(j int) {
+				defer wg.Done()
+				cs.Push(PushRoute, &Arg{Tag: fmt.Sprintf("qp%d.%d", i, j)})
+			}(j)
+		}
+		for j := 0; j < burst-pushes; j++ {
 			wg.Add(1)
 			go func(j int) {
 				defer wg.Done()
@@ -309,8 +323,22 @@ func runRate(rec *Rec, sc *OverloadScenario, n int) {
 		wg.Wait()
 		// ticks that can have elapsed since the previous burst ended (upper bound)
 		ticksNow := int(time.Since(start)/interval) + 1
-		rec.Emit("Calls", "sent", burst, "admitted", admitted, "rejected", rejected, "rejectederr", rejectedErr,
-			"handlers", atomic.LoadInt64(&app.Enters)-before, "ticks", ticksNow-lastTicks)
+		if pushes > 0 {
+			// pushes are handled asynchronously: wait until the handler count is stable
+			last := int64(-1)
+			for k := 0; k < 50; k++ {
+				now := atomic.LoadInt64(&app.Enters)
+				if now == last && k >= 3 {
+					break
+				}
+				last = now
+				time.Sleep(500 * time.Microsecond)
+			}
+		}
+		// an admitted push is one whose handler ran; a rejected push gets no reply by definition
+		pushIn := int(atomic.LoadInt64(&app.EntersPush) - beforePush)
+		rec.Emit("Calls", "sent", burst, "admitted", admitted+pushIn, "rejected", rejected+pushes-pushIn, "rejectederr", rejectedErr+pushes-pushIn,
+			"handlers", atomic.LoadInt64(&app.Enters)-before, "ticks", ticksNow-lastTicks, "pushes", pushes, "pushesin", pushIn)
 		lastTicks = int(time.Since(start) / interval)
 	}
 }
